@@ -63,7 +63,7 @@ REGISTRY = {
     "C16": _design_prop(OD.oracle_c16),
     "C17": _design_prop(OD.oracle_c17),
     "C27": {
-        "correspondence": [i4_text.corr_text],
+        "correspondence": [i4_text.corr_text, i4_text.corr_sample_lines],
         "oracle": [i4_text.oracle_c27],
         "oracle_budget": {"quick": 20, "thorough": 240},
         "replay": _replay27,
